@@ -258,18 +258,14 @@ type c13Case struct {
 
 // c13gen draws one case. small = few chunks and few underlying calls, so that
 // an exhaustive fault sweep is cheap.
-func c13gen(r *rand.Rand, thorough, small bool) *c13Case {
+func c13gen(r *rand.Rand, thorough, small, zstd bool) *c13Case {
 	var c c13Cfg
 	// zstd at LevelSmall costs seconds of CPU per Writer (huge match-finder
-	// tables), so it gets a small share in the quick tier.
-	zstdShare := 3
-	if thorough {
-		zstdShare = 5
-	}
-	switch p := r.Intn(100); {
-	case p < zstdShare:
+	// tables), so the caller schedules it by case index rather than by chance.
+	switch {
+	case zstd:
 		c.Codec = "zstd"
-	case p < zstdShare+28:
+	case r.Intn(10) < 3:
 		c.Codec = "lz4"
 	default:
 		c.Codec = "zlib"
@@ -1528,9 +1524,11 @@ func c13sweepOK(cfg *c13Cfg, out *c13Out, npieces int, thorough bool, phase stri
 		limit = 120
 	}
 	if cfg.Codec == "zstd" {
-		limit = 5
-		if thorough {
-			limit = 20
+		// every re-run costs seconds: only tiny histories, only in the
+		// thorough tier's fault phase
+		limit = 0
+		if thorough && phase == "flt" {
+			limit = 8
 		}
 	}
 	if calls > limit || npieces > 64 {
@@ -1564,7 +1562,16 @@ func C13(rc *vk.Rec) {
 			}
 			rc.Mark(ph.phase, idx)
 			r := rc.RNG(ph.phase, idx)
-			ck := &c13Checker{rc: rc, phase: ph.phase, idx: idx, cs: c13gen(r, thorough, ph.phase == "flt")}
+			zstd := false
+			switch {
+			case ph.phase == "rt" && thorough:
+				zstd = idx%20 == 3
+			case ph.phase == "rt":
+				zstd = idx%30 == 3
+			case thorough:
+				zstd = idx%50 == 49
+			}
+			ck := &c13Checker{rc: rc, phase: ph.phase, idx: idx, cs: c13gen(r, thorough, ph.phase == "flt", zstd)}
 			cls, out := ck.faultFree()
 			if cls != "" && !race && c13sweepOK(&ck.cs.Cfg, out, len(ck.cs.Pieces), thorough, ph.phase, idx) {
 				ck.sweep(cls)
